@@ -53,7 +53,12 @@ func handedOut(c *chk.Ctx, root *ssa.Function) []*ssa.Function {
 				}
 			}
 			if mc, ok := ins.(*ssa.MakeClosure); ok {
-				add(mc.Fn.(*ssa.Function), depth+1)
+				fn := mc.Fn.(*ssa.Function)
+				add(fn, depth+1)
+				// a method value (x.m handed out as a function): the method itself
+				if u := ir.UnwrapBound(fn); u != fn {
+					add(u, depth+1)
+				}
 			}
 		})
 	}
@@ -296,7 +301,7 @@ func ruleWrapSnapshot(c *chk.Ctx) {
 	aw := handlerFunc(c, "(*FuncInfo).argWrapper")
 	if aw != nil {
 		hasStrict, hasImpl := false, false
-		ir.Instrs(aw, func(ins ssa.Instruction) {
+		c.P.ExtInstrs(aw, func(ins ssa.Instruction) {
 			if fa, ok := ins.(*ssa.FieldAddr); ok && ir.FieldVar(fa).Name() == "strictFields" {
 				hasStrict = true
 			}
@@ -584,17 +589,43 @@ func ruleExactLength(c *chk.Ctx) {
 				continue // "not an array" passthrough before the parse
 			}
 			n++
+			isLenEq := func(cd ir.Cond) bool {
+				x, y, op, ok := ir.Rel(cd)
+				if !ok || op != token.EQL {
+					return false
+				}
+				_, l1 := ir.LenOf(x)
+				_, l2 := ir.LenOf(y)
+				return l1 && l2
+			}
 			eq := false
 			for _, cd := range ir.CondsAt(r.Block()) {
-				bo, ok := cd.V.(*ssa.BinOp)
-				if !ok {
-					continue
-				}
-				_, l1 := ir.LenOf(bo.X)
-				_, l2 := ir.LenOf(bo.Y)
-				if l1 && l2 && ((bo.Op == token.NEQ && !cd.Truth) || (bo.Op == token.EQL && cd.Truth)) {
+				if isLenEq(cd) {
 					eq = true
 				}
+			}
+			if !eq && parse.Parent() == f {
+				// the length test may feed a shared error variable (`if err == nil && len… { err = … }`
+				// followed by one `if err != nil` exit): every nil-feasible path from the parse to
+				// this return must pass the equality
+				all, some := true, false
+				okWalk := ir.WalkNilPathsKnowing(parse.Block(), func(v ssa.Value) bool { return nonNilResult(c, v, 0) }, func(path []*ssa.BasicBlock, _ func(ssa.Value) ssa.Value) bool {
+					if path[len(path)-1] != r.Block() {
+						return true
+					}
+					some = true
+					found := false
+					for _, cd := range ir.PathConds(path) {
+						if isLenEq(cd) {
+							found = true
+						}
+					}
+					if !found {
+						all = false
+					}
+					return false
+				})
+				eq = okWalk && all && some
 			}
 			c.Check(eq, "PAIR.length", f, "success only for the exact length", r.Pos(), "a successful return after the array parse is governed by len(got) == len(want)", "a successful return after the array parse is not governed by the length equality: an array of the wrong length (e.g. empty) would be accepted")
 		}
@@ -847,7 +878,7 @@ func ruleDecodeTargets(c *chk.Ctx) {
 	}
 	ptrForm, valForm := false, false
 	for _, g := range handedOut(c, wrap) {
-		if g.Parent() == nil {
+		if g == wrap || g.Synthetic != "" {
 			continue
 		}
 		// the freshly allocated decode target in g: reflect.New(...) directly, or the first
@@ -993,4 +1024,40 @@ func ruleStubsKeepStrictness(c *chk.Ctx) {
 	if n == 0 {
 		c.Undecided("WHO.strictstub", nil, "decoding stubs", 0, "no stub that forwards to a wrapped target found")
 	}
+}
+
+// nonNilResult: v is never nil — a value nonNilValue accepts, a fresh
+// allocation, or the result of a repository function all of whose returns are
+// such values (a constructor like Errorf).
+func nonNilResult(c *chk.Ctx, v ssa.Value, depth int) bool {
+	if mi, ok := v.(*ssa.MakeInterface); ok {
+		if _, isPtr := mi.X.Type().Underlying().(*types.Pointer); isPtr {
+			return nonNilResult(c, mi.X, depth)
+		}
+		return true
+	}
+	if nonNilValue(v) {
+		return true
+	}
+	if _, ok := v.(*ssa.Alloc); ok {
+		return true
+	}
+	call, ok := v.(*ssa.Call)
+	if !ok || depth > 2 {
+		return false
+	}
+	g := call.Call.StaticCallee()
+	if g == nil || !c.P.InRepo[g] || g.Signature.Results().Len() != 1 {
+		return false
+	}
+	rets := ir.Returns(g)
+	if len(rets) == 0 {
+		return false
+	}
+	for _, r := range rets {
+		if !nonNilResult(c, ir.NormCell(ir.ReturnResult(r, 0)), depth+1) {
+			return false
+		}
+	}
+	return true
 }
